@@ -419,7 +419,8 @@ def R5_bundle(run):
         ok = len(cs) == 1 and const_val(cs[0][2][2]) == val and is_param(cs[0][2][1], "bundle_index")
         run.check("R5", "flag@" + name, ok, "%s does not call update_bitmap(bundle_index, %s)" % (name, bool(val)), loc=g.loc(), detail="update_bitmap(index, %s)" % bool(val))
     h = facts.need_fn("instructions::delete_position_bundle::handler")
-    eb = [bi for bi, t in h.calls() if (callee_path(t) or "").endswith("burn_and_close_position_bundle_token")]
+    # (the bundle wrapper only forwards to burn_and_close_user_position_token: either call is the burn)
+    eb = [bi for bi, t in h.calls() if (callee_path(t) or "").endswith(("burn_and_close_position_bundle_token", "burn_and_close_user_position_token"))]
     ok = False
     for at in A.atoms(h):
         if mentions(at.term, lambda s: s[0] == "call" and s[1].endswith("is_deletable")) and "PositionBundleNotDeletable" in _codes(at):
